@@ -441,8 +441,16 @@ class Check:
 
         nontriv = set()
         for c, io in zip(cases, impl_outs):
-            if self.nontrivial(c, io):
-                nontriv.add(canon(c))
+            try:                      # bookkeeping callbacks must never turn a finding into an infra error
+                if self.nontrivial(c, io):
+                    nontriv.add(canon(c))
+            except Exception as e:
+                if not any(n.startswith('nontrivial() failed') for n in self.notes):
+                    self.notes.append(f'nontrivial() failed on an observed output: {type(e).__name__}: {e}')
+        try:
+            hist = self.histogram(cases, impl_outs)
+        except Exception as e:
+            hist = {'error': f'histogram() failed on the observed outputs: {type(e).__name__}: {e}'}
         wall = time.time() - self.t0
         n_ob = len(self.THEOREMS)
         cov = {
@@ -461,7 +469,7 @@ class Check:
             'corpus_cases': len(corpus),
             'traces_validated_against_impl': len(cases) if model_outs is not None else 0,
             'disagreements_checked': len(disagreements),
-            'histogram': self.histogram(cases, impl_outs),
+            'histogram': hist,
             'proof_detail': {k: v for k, v in pdetail.items() if k != 'log_tail'},
             'known_findings_hit': sorted(known_hits),
             'notes': self.notes,
